@@ -12,12 +12,12 @@ from .evidence import write_evidence
 VERIF = M.VERIF
 
 RUNS = {
-    "quick": {"C04": 2500, "C05": 2500, "C06": 3000, "C07": 2500, "C08": 2500, "C09": 1600,
-              "C11": 1500, "C14": 1500, "C16": 1500, "C19": 1500, "C20": 800},
+    "quick": {"C04": 3500, "C05": 2500, "C06": 3000, "C07": 2500, "C08": 3000, "C09": 2400,
+              "C11": 2000, "C14": 1500, "C16": 1500, "C19": 1500, "C20": 800},
     "thorough": {"C04": 120000, "C05": 120000, "C06": 150000, "C07": 120000, "C08": 90000, "C09": 90000,
                  "C11": 60000, "C14": 60000, "C16": 60000, "C19": 60000, "C20": 30000},
 }
-WALL = {"quick": 150.0, "thorough": 900.0}
+WALL = {"quick": 300.0, "thorough": 900.0}
 
 COMPONENTS = {
     "real": [
